@@ -67,7 +67,7 @@ func (Prop) Assumptions() []string {
 // ---------------------------------------------------------------- generation
 
 var derivations = []string{"session", "session", "with_context", "debug", "begin", "session_newdb", "session_skiphooks", "session_newdb_skiphooks", "session_newdb_ctx", "session_ctx_skiphooks"}
-var readFins = []string{"find", "find", "first", "take", "count", "pluck", "rows", "scan", "find_in_batches", "first_or_init", "count_direct", "count_direct", "pluck_direct", "rows_direct", "scan_direct", "last", "row_direct", "row_direct", "row"}
+var readFins = []string{"find", "find", "first", "take", "count", "pluck", "rows", "scan", "find_in_batches", "first_or_init", "count_direct", "count_direct", "pluck_direct", "rows_direct", "scan_direct", "last", "row_direct", "row_direct", "row", "tx_direct"}
 var writeFins = []string{"update", "updates", "delete", "create", "update_direct"}
 var methods = []string{"model", "model", "where", "where", "where", "or", "not", "select", "omit", "order", "order", "limit", "offset", "group", "having", "joins", "joins", "distinct", "unscoped", "scopes", "preload", "returning", "returning", "order_clause", "locking", "on_conflict", "table", "model", "attrs", "assign", "where_sub", "where_group", "where_group", "joins_db", "table", "from_clause", "group_clause", "limit_clause", "insert_modifier", "inner_joins", "select_expr", "omit_assoc"}
 
@@ -153,6 +153,16 @@ func (Prop) Gen(r *core.Rand, tier string) interface{} {
 			}
 			c.Chains[i].Steps[j].H = h
 		}
+	}
+	if r.Chance(8) {
+		// scenario: a handle whose context is already over; a Transaction block
+		// started straight on it (its BEGIN fails), then another chain from the handle
+		base := len(c.Chains)
+		c.Chains = append(c.Chains,
+			Chain{From: 0, End: "session_newdb_ctx"},
+			Chain{From: base + 1, End: "tx_direct"},
+			Chain{From: base + 1, Steps: []Step{genStep(r, 1, []string{"where", "order", "limit"})}, End: r.Pick([]string{"find", "count", "first"})})
+		c.DryRun = true
 	}
 	total := 0
 	for _, ch := range c.Chains {
@@ -528,6 +538,26 @@ func finish(e *env.Env, db *gorm.DB, ch Chain, dry bool) (o obs) {
 			rows.Close()
 			o.Rows = fmt.Sprint(n)
 		}
+	case "tx_direct":
+		// a Transaction block started straight on the handle (its BEGIN fails when the
+		// handle's context is already over)
+		var n int64
+		var err error
+		if db.Error != nil {
+			// a handle that already failed (Begin on a transaction handle, …): SAVEPOINT
+			// would add the handle's own error to it once more, the sticky-error behaviour
+			// examined in DESIGN.md section 13
+			err = db.Error
+		} else {
+			err = db.Transaction(func(tx *gorm.DB) error {
+				return tx.Model(&fam.User{}).Count(&n).Error
+			})
+		}
+		tx = db
+		if err != nil {
+			o.Err = firstLine(err.Error())
+		}
+		o.Rows = fmt.Sprint(n)
 	case "row_direct", "row":
 		h := db
 		if ch.End == "row" {
